@@ -155,7 +155,7 @@ func newSpecs() *Specs {
 }
 
 var clauseKinds = map[string]bool{"requires": true, "ensures": true, "invariant": true, "assume-env": true,
-	"effect": true, "assert": true, "decreases": true, "modifies": true, "lemma": true, "assume-arith": true}
+	"effect": true, "effect-after": true, "assert": true, "decreases": true, "modifies": true, "lemma": true, "assume-arith": true}
 
 var tagRe = regexp.MustCompile(`^\[([^\]]*)\]\s*`)
 var labelRe = regexp.MustCompile(`^([A-Za-z][A-Za-z0-9_\-]*):\s+`)
@@ -401,11 +401,11 @@ func (sp *Specs) parseSpecFile(path, pkg string) error {
 				c.Tags = strings.Fields(m[1])
 				rest = rest[len(m[0]):]
 			}
-			if m := labelRe.FindStringSubmatch(rest); m != nil && kw != "effect" {
+			if m := labelRe.FindStringSubmatch(rest); m != nil && kw != "effect" && kw != "effect-after" {
 				c.Label = m[1]
 				rest = rest[len(m[0]):]
 			}
-			if kw == "effect" {
+			if kw == "effect" || kw == "effect-after" {
 				i := strings.Index(rest, ":=")
 				if i < 0 {
 					return fmt.Errorf("%s: effect needs :=", where)
